@@ -30,6 +30,7 @@ VARIABLES
   inAcq,     \* [Clients -> 0..H]        key of the acquire() call the client is inside of (0: none)
   inRel,     \* [Clients -> BOOLEAN]     the client is inside an awaited release()
   rpend,     \* set of no_wait_release tasks that have not finished
+  owed,      \* connections whose release()/no_wait_release() was called and has not finished
   quiet      \* the event loop has nothing left to run (all wake-ups delivered)
 
 AllOf(k) == ready[k] \cup busy[k]
@@ -39,6 +40,11 @@ Mutex    == \A x \in Conns : Cardinality(holders[x]) <= 1
 HeldBusy == \A x \in Conns : holders[x] # {} => \E k \in Keys : present[k] /\ x \in busy[k]
 Disjoint == /\ \A k \in Keys : ready[k] \cap busy[k] = {}
             /\ \A k1, k2 \in Keys : k1 # k2 => AllOf(k1) \cap AllOf(k2) = {}
+
+\* ---- every checked-out connection is accounted for: in the hands of a client, on its way back (release called and
+\*      not finished), or on its way out (some client is inside acquire() for that key)
+BusyAccounted == \A k \in Keys : \A x \in busy[k] :
+                    holders[x] # {} \/ x \in owed \/ \E c \in Clients : inAcq[c] = k
 
 \* ---- never over-allocates
 Bound == \A k \in Keys : Cardinality(busy[k]) <= M
